@@ -116,6 +116,9 @@ def lean_check(prop, tier='quick'):
         if not ok and (failed_tools != ['gen_codecs.py'] or prop in CODEC_PROPS):
             # a source the translators do not understand: the theorems cannot be re-stated over it
             res['ok'] = False; res['errors'].append('translator: ' + msg); res['failed_modules'] = ['Sucds.Gen (translator)']
+            # the model driver must still be the one of the current tree (its generated constants), or its answers mean nothing
+            rd = subprocess.run(['lake', 'build', 'sucds_model'], cwd=LEAN, capture_output=True, text=True, env=ENV)
+            res['driver_fresh'] = rd.returncode == 0
             res['obligations'] = 1; return res
         if not ok: res['notes'] = ['codec translator refused the current sources (not this property\'s obligation): ' + msg[-300:]]
         mod = 'Sucds.Props.%s' % prop
@@ -149,6 +152,8 @@ def lean_check(prop, tier='quick'):
         res['obligations'] = len(all_thms)
         if r.returncode != 0:
             res['ok'] = False
+            rd = subprocess.run(['lake', 'build', 'sucds_model'], cwd=LEAN, capture_output=True, text=True, env=ENV)
+            res['driver_fresh'] = rd.returncode == 0
             errs = [l for l in (r.stdout + r.stderr).splitlines() if 'error' in l.lower()][:20]
             res['errors'] += errs
             failed_mods = re.findall(r'✖ \[\d+/\d+\] Building (\S+)', r.stdout + r.stderr)
@@ -248,6 +253,27 @@ def build_harness(cfgs):
         if r.stdout.strip() != want: errs[c] = ['configuration mismatch: %s vs %s' % (r.stdout.strip(), want)]
     return bins, errs
 
+BIG_STATS = {'requests': 0}
+def big_search(prop, bins, lines, budget):
+    """run self-checking `big` requests one at a time (release build first); return the first failing one"""
+    deadline = time.time() + budget
+    order = [c for c in ('release', 'release-intr', 'debug', 'debug-intr') if c in bins]
+    for ci, c in enumerate(order[:2]):
+        p = subprocess.Popen([bins[c]], stdin=subprocess.PIPE, stdout=subprocess.PIPE, text=True, env=dict(ENV, HARNESS_REQUEST_LIMIT_S='120'))
+        try:
+            for line in (lines if ci == 0 else lines[:10]):
+                if time.time() > deadline: break
+                p.stdin.write(line + '\n'); p.stdin.flush()
+                ans = p.stdout.readline().strip()
+                if not ans: break     # the process died on this request (abort / watchdog): not attributable here
+                BIG_STATS['requests'] += 1
+                why = gens.big_oracle(prop, ans)
+                if why: return (c, line, ans, why)
+        finally:
+            try: p.stdin.close(); p.wait(timeout=5)
+            except Exception: p.kill()
+    return None
+
 def write_script(path, cases):
     with open(path, 'w') as f:
         for c in cases:
@@ -289,7 +315,26 @@ def run_impl(binary, cases, workdir, name, timeout_per_run=900):
     for i in todo: answers[i] = ['-'] * len(cases[i])
     return answers, crashes
 
+MODEL_JOBS = int(os.environ.get('VERIF_MODEL_JOBS', '6'))
 def run_model(cfgname, cases, impl_answers, workdir, name):
+    """the cases are independent (`case` resets the object table), so the model driver runs on balanced chunks in parallel"""
+    n = min(MODEL_JOBS, len(cases))
+    if n <= 1 or sum(len(c) for c in cases) < 400: return run_model_chunk(cfgname, cases, impl_answers, workdir, name)
+    order = sorted(range(len(cases)), key=lambda i: -sum(len(l) for l in cases[i]))
+    chunks = [[] for _ in range(n)]; load = [0] * n
+    for i in order:
+        j = load.index(min(load)); chunks[j].append(i); load[j] += sum(len(l) for l in cases[i]) + 50 * len(cases[i])
+    from concurrent.futures import ThreadPoolExecutor
+    def go(j):
+        idx = sorted(chunks[j])
+        return idx, run_model_chunk(cfgname, [cases[i] for i in idx], [impl_answers[i] for i in idx], workdir, '%s.k%d' % (name, j))
+    out = [None] * len(cases)
+    with ThreadPoolExecutor(n) as ex:
+        for idx, rows in ex.map(go, range(n)):
+            for i, r in zip(idx, rows): out[i] = r
+    return out
+
+def run_model_chunk(cfgname, cases, impl_answers, workdir, name):
     sp = os.path.join(workdir, name + '.model.script')
     ip = os.path.join(workdir, name + '.model.impl')
     write_script(sp, cases)
@@ -430,6 +475,13 @@ def main():
         bins, errs = build_harness(cfgs)
         if errs: print('harness build failed:', errs); return 2
         subprocess.run(['lake', 'build', 'sucds_model'], cwd=LEAN, capture_output=True, env=ENV)
+        if any(l.startswith('big ') for l in cases[0]):
+            for c in cfgs:
+                impl, _ = run_impl(bins[c], cases, work, 'replay-' + c)
+                print('config', c)
+                for req, I in zip(cases[0], impl[0]):
+                    if req.startswith('big '): print('  %s\n      impl : %s\n      fails: %s' % (req, I, gens.big_oracle(prop, I)))
+            return 0
         for c in cfgs:
             impl, _ = run_impl(bins[c], cases, work, 'replay-' + c)
             model = run_model(c, cases, impl, work, 'replay-' + c)
@@ -471,12 +523,31 @@ def main():
     log('cases:', len(cases), 'lines:', sum(len(c) for c in cases))
 
     all_findings = []; stats_by_cfg = {}; impl_by_cfg = {}; model_by_cfg = {}
-    for c in cfgs:
+    def run_cfg(c):
         impl, crashes = run_impl(bins[c], cases, work, c)
         model = run_model(c, cases, impl, work, c)
+        return c, impl, model
+    from concurrent.futures import ThreadPoolExecutor
+    with ThreadPoolExecutor(len(cfgs)) as ex:
+        results = list(ex.map(run_cfg, cfgs))
+    for c, impl, model in results:
         f, st = compare(c, cases, impl, model)
         all_findings += f; stats_by_cfg[c] = st; impl_by_cfg[c] = impl; model_by_cfg[c] = model
         log(c, st, 'findings:', len(f))
+    # large values (C08, C13): self-checking requests answered by the implementation alone, sizes around 2^16, 2^20 and any
+    # integer literal that is new in the sources (harness/src/big.rs; the model driver cannot evaluate values this large)
+    big_regular = None
+    if prop in gens.BIG_SEARCH_PROPS:
+        bl = gens.big_search_lines(gens.new_literals(REPO))
+        big_regular = big_search(prop, bins, bl[:24] if tier == 'quick' else bl, 90 if tier == 'quick' else 900)
+        log('large-value requests:', BIG_STATS['requests'], 'failing:', big_regular[1:] if big_regular else None)
+    driver_fresh = lean.get('driver_fresh', True)
+    if not driver_fresh:
+        # the model driver could not be rebuilt for the current tree (a generated constant no longer compiles): its answers and
+        # the expectations it computes belong to an earlier tree, so a disagreement with it is a broken tie, not a failing input
+        log('model driver is stale (not rebuildable for this tree): disagreements count as a broken correspondence only')
+        for f in all_findings:
+            if f.kind in ('property', 'machinery'): f.kind = 'tie'
     # configuration independence (C15 and, as a by-product, everywhere): transcripts must be identical
     base = cfgs[0]
     for c in cfgs[1:]:
@@ -516,6 +587,15 @@ def main():
             return any(x.kind == 'property' for x in fs)
         return f
 
+    def big_replay(found, tag):
+        c, line, ans, why = found
+        return write_replay(tag, {'property': prop, 'kind': 'implementation-vs-specification', 'config': c, 'seed': seed,
+                                  'oracle': 'self-checking request answered by the implementation alone (harness/src/big.rs); the property clause is decided from the fields of the answer',
+                                  'finding': {'request': line, 'implementation': ans, 'fails': why}, 'case': ['case big', line],
+                                  'how_to_replay': 'tools/check.py %s --replay <this file>' % prop,
+                                  'broken': {'lean_errors': lean['errors'][:10], 'tie': [x.as_dict() for x in tie_f[:5]]}})
+    if big_regular:
+        violations.append((big_replay(big_regular, 'violation-large-value'), ''))
     if prop_f:
         # one replay per distinct failing request kind (first few), shrunk
         seen = set()
@@ -532,13 +612,13 @@ def main():
             p = write_replay('violation-%d' % len(seen), {'property': prop, 'kind': 'implementation-vs-specification' if f.kind == 'property' else 'configuration-dependence', 'config': cfgname, 'seed': seed, 'finding': f.as_dict(), 'case': case,
                               'how_to_replay': 'tools/check.py %s --replay <this file>' % prop})
             violations.append((p, ''))
-    elif tie_f or not lean['ok']:
+    elif (tie_f or not lean['ok']) and not big_regular:
         # correspondence or proof obligation broke without a failing input in this run: search harder
         log('tie/proof broken; searching for a failing input with the thorough generators in all configurations')
         found = None
         try:
             bins2, errs2 = build_harness(ALL_CONFIGS)
-            if not errs2:
+            if not errs2 and driver_fresh:
                 rng2 = random.Random('%s/%d/search' % (prop, seed))
                 cases2 = gens.GENERATORS[prop](rng2, 'thorough')
                 deadline = time.time() + (240 if tier == 'quick' else 1500)
@@ -555,7 +635,19 @@ def main():
                         found = (c, pf[0], case); break
         except Exception as e:
             log('search failed:', e)
-        if found:
+        big_found = None
+        if not found and prop in gens.BIG_SEARCH_PROPS:
+            # literal-directed search on large values, answered by the implementation alone (harness/src/big.rs):
+            # sizes around the integer literals that are new in the sources, and around 2^16 and 2^20
+            try:
+                lits = gens.new_literals(REPO)
+                log('searching large values; new literals in the sources:', lits[:12])
+                big_found = big_search(prop, bins2, gens.big_search_lines(lits), 240 if tier == 'quick' else 1200)
+            except Exception as e:
+                log('large-value search failed:', e)
+        if big_found:
+            violations.append((big_replay(big_found, 'violation-search'), ''))
+        elif found:
             c, f, case = found
             p = write_replay('violation-search', {'property': prop, 'kind': 'implementation-vs-specification', 'config': c, 'seed': seed, 'finding': f.as_dict(), 'case': case,
                                                    'broken': {'lean_errors': lean['errors'][:10], 'tie': [x.as_dict() for x in tie_f[:5]]}})
@@ -596,6 +688,7 @@ def main():
             'traces_validated_against_impl': sum(st['lines'] for st in stats_by_cfg.values()),
             'configurations': cfgs, 'stats_by_configuration': stats_by_cfg, 'corpus_cases': ncorpus,
             'leanchecker': lean.get('leanchecker'),
+            'large_value_self_checking_requests': BIG_STATS['requests'] if prop in gens.BIG_SEARCH_PROPS else None,
             'function_translator': lean.get('translator'), 'generated_vs_model_evaluation': lean.get('gen_vs_model_test'),
             'theorems_about_generated_definitions': lean.get('generated_definition_theorems', []),
             'explanation': 'theorems over the Lean model re-checked by lake build against constants regenerated from /repo; model tied to /repo by running %d generated cases through the real code (%s) and the model driver, comparing implementation vs model (tie), implementation vs specification (oracle) and model vs specification' % (evaluations, ', '.join(cfgs)),
